@@ -66,16 +66,30 @@ NoneVariants(k) ==
     [] k = "class"    -> {"plain", "hexesc_end", "hexesc_mid", "escapes",
                           "nonascii_string", "num_forms", "multistring",
                           "comments", "crlf", "kw_names", "upper_kw",
-                          "alias", "empty_body", "no_super", "assoc"}
+                          "alias", "empty_body", "no_super", "assoc",
+                          "sub_of_prev"}
     [] k = "instance" -> {"plain", "hexesc_end", "hexesc_mid", "escapes",
                           "nonascii_string", "num_forms", "multistring",
                           "comments", "crlf", "upper_kw", "no_alias",
-                          "emb_ok", "ref_alias", "null_values"}
+                          "emb_ok", "ref_alias", "null_values",
+                          "emb_array_ok", "emb_array_one", "of_prev"}
     [] k = "include"  -> {"inc2"}
     [] k = "namespace" -> {"same", "other", "leading_slash", "unknown_pragma",
                            "locale"}
     [] k = "garbage"  -> {"empty", "whitespace", "comment_only"}
 
+\* Variants that relate a production to ANOTHER production of the same text:
+\*   instance of_prev    an instance of the class declared by the nearest
+\*                       preceding class production of the text (of a prelude
+\*                       class if there is none): inherited-element resolution
+\*                       (GetClass LocalOnly=False) of a class of the session
+\*   class sub_of_prev   a subclass of that class
+\*   instance emb_ok / emb_array_ok / emb_array_one
+\*                       valid productions that run a NESTED compile (the value
+\*                       of an EmbeddedInstance property: one string, an array
+\*                       of several strings, an array of one string); like an
+\*                       include, the nested compile replaces and must restore
+\*                       the parser's notion of the current text
 \* type/value mismatches and malformed values
 ValueKinds(k) ==
   CASE k = "qualDecl" -> {"int_overflow", "huge_int", "neg_unsigned",
@@ -113,7 +127,8 @@ ValueKinds(k) ==
 DepKinds(k) ==
   CASE k = "class"    -> {"unknown_superclass", "unknown_qualifier",
                           "unknown_refclass", "unknown_embclass",
-                          "super_cycle_searchpath", "super_in_searchpath"}
+                          "super_cycle_searchpath", "super_in_searchpath",
+                          "super_self"}   \* class X : X, any lexical case
     [] k = "instance" -> {"unknown_class", "unknown_property",
                           "class_in_searchpath", "class_cycle_searchpath"}
     [] k = "include"  -> {"missing", "dir", "empty_name", "self", "mutual"}
@@ -202,10 +217,43 @@ SessionsC(kinds) ==
   {[main |-> <<Inc2, f>>, inc |-> <<PlainOf("class")>>]
    : f \in {x \in FocusOf(kinds) : ~IncOnly(x) /\ ~MainOnly(x)}}
 
+(*  D    nested compile, then an error: a valid production that runs a      *)
+(*       nested compile (embedded value: scalar, array, array of one) and   *)
+(*       after it, in the same text (D1) or in the including text (D2),     *)
+(*       every defective focus production: the error must be positioned in  *)
+(*       the text it stands in although the parser was busy with another    *)
+(*       text in between                                                    *)
+(*  E    declare, then use: every focus production of kind class (valid     *)
+(*       variants, value and dependency defects, mutations) followed by an  *)
+(*       instance of the class it declares (E2) or by a subclass and an     *)
+(*       instance of the subclass (E3): whatever the repository accepted    *)
+(*       must be usable by the rest of the compile                          *)
+OfPrev == P("instance", "none", "of_prev", 0)
+SubOfPrev == P("class", "none", "sub_of_prev", 0)
+NestedOk == {P("instance", "none", v, 0)
+             : v \in {"emb_ok", "emb_array_ok", "emb_array_one"}}
+Helpers == NestedOk \cup {OfPrev, SubOfPrev}
+ErrClasses == {"lex", "syntax", "value", "dependency"}
+
+SessionsD(kinds) ==
+  {[main |-> IF j = 1 THEN <<n, f>> ELSE <<Inc2, f>>,
+    inc |-> IF j = 1 THEN << >> ELSE <<n>>]
+   : f \in {x \in FocusOf(kinds) : x.d \in ErrClasses /\ ~IncOnly(x)},
+     n \in NestedOk, j \in 1..2}
+
+SessionsE(kinds) ==
+  {[main |-> IF j = 2 THEN <<f, OfPrev>> ELSE <<f, SubOfPrev, OfPrev>>,
+    inc |-> << >>]
+   : f \in {x \in FocusOf(kinds \cap {"class"}) : x.d # "repo"
+                                                  /\ x \notin Helpers},
+     j \in 2..3}
+
 SessionParts(maxprod, kinds) ==
-  [i \in 1..(maxprod + 2) |->
+  [i \in 1..(maxprod + 4) |->
      IF i <= maxprod THEN SessionsA(i, kinds)
-     ELSE IF i = maxprod + 1 THEN SessionsB(kinds) ELSE SessionsC(kinds)]
+     ELSE IF i = maxprod + 1 THEN SessionsB(kinds)
+     ELSE IF i = maxprod + 2 THEN SessionsC(kinds)
+     ELSE IF i = maxprod + 3 THEN SessionsD(kinds) ELSE SessionsE(kinds)]
 
 AllProds(ses) == Rng(ses.main) \cup Rng(ses.inc)
 
